@@ -32,6 +32,11 @@ unsafe fn check_log<const M: usize>(layout: Layout, limit: Option<usize>, held: 
         assert!(held <= l && usable <= l - held,
                 "[C07] chunk requested from the global allocator that would exceed the allocation limit");
     }
+    if limit.is_none() {
+        // "as if the feature did not exist": without a limit the arena never asks for less than
+        // max(request, default chunk)
+        assert!(rs - FOOTER_SIZE >= DEFAULT, "[C07,C18] arena without a limit asked for a chunk below the default size");
+    }
     // halving: requests never grow
     if i + 1 < NLOG && i + 1 < LOGN {
         assert!(LOG[i + 1].0 <= rs, "[C18] a later attempt asked for more than an earlier one");
